@@ -58,7 +58,7 @@ pub fn run(run: &Run) {
          alphabet (spaces of 1-3 bytes, NFKC-space producers, composing pairs, compatibility characters, jamo, controls). Oracle: model (non-empty \
          -> FreeformClass reference scan -> Zs16 minus U+0020 to U+0020 -> ICU4X NFC -> non-empty), prepare returns the input itself; metamorphic: no \
          non-ASCII Zs in the result, result is NFC, inputs without non-ASCII Zs and already NFC come back byte for byte. Non-trivial: accepted and (a \
-         non-ASCII space after byte offset 0, or NFC changes the string); distinct = distinct input. Plus the deterministic long-input / call-order batteries of DESIGN.md 8.1 that apply to this property (alignment sweeps 0..72 and around 128..65536 bytes, runs and exact counts, sandwiches and multi-megabyte inputs, exhaustive pair sets, plane/byte aliases, hash-colliding pairs back to back, owned arguments with spare capacity); each battery is a finite list enumerated completely and appears as its own section in 'sections'.",
+         non-ASCII space after byte offset 0, or NFC changes the string); distinct = distinct input. Plus the deterministic long-input / call-order batteries of DESIGN.md 8.1 and 8.2 that apply to this property (extreme scale, mark neighbours, distinct runs with repeats, environment children, thread lifetime, concurrent distinct inputs; alignment sweeps 0..72 and around 128..65536 bytes, runs and exact counts, sandwiches and multi-megabyte inputs, exhaustive pair sets, plane/byte aliases, hash-colliding pairs back to back, owned arguments with spare capacity); each battery is a finite list enumerated completely and appears as its own section in 'sections'.",
     );
     run.par("zs_placements", true, |tid, n, l| {
         for (i, z) in crate::gens::pools().zs.iter().enumerate() {
